@@ -73,3 +73,94 @@ def generator(repo):
     return '\n'.join(out), [f'ceil {ceil_arg} coords {coords} order {order}']
 
 MODULES = [{'name': 'RescaleGrid', 'src': SRC, 'generator': generator, 'props': ['C17']}]
+
+
+# ---------------------------------------------------------------------------------------------- Plane.rescale / Plane.resample wiring
+def _rx(e, env):
+    """small real expression -> Lean over K (names through env, + - * /)"""
+    src = ast.unparse(e)
+    if src in env: return env[src]
+    if isinstance(e, ast.BinOp):
+        op = {ast.Add: '+', ast.Sub: '-', ast.Mult: '*', ast.Div: '/'}.get(type(e.op))
+        if op is None: raise Refuse(f'operator in {src}')
+        return f'({_rx(e.left, env)} {op} {_rx(e.right, env)})'
+    raise Refuse(f'plane wiring: expression not understood: {src}')
+
+def _rescale_call(c):
+    """lentil.rescale(X, scale=scale, …) -> (array expr, {kw: text})"""
+    if not (isinstance(c, ast.Call) and ast.unparse(c.func) == 'lentil.rescale' and len(c.args) == 1): raise Refuse(f'rescale call: {ast.unparse(c)[:60]}')
+    kw = {k.arg: ast.unparse(k.value) for k in c.keywords}
+    if kw.get('scale') != 'scale': raise Refuse('rescale call must pass scale=scale')
+    return ast.unparse(c.args[0]), kw
+
+def plane_generator(repo):
+    tree = ast.parse(open(os.path.join(repo, 'lentil', 'plane.py')).read())
+    cls = [n for n in tree.body if isinstance(n, ast.ClassDef) and n.name == 'Plane'][0]
+    fn = {n.name: n for n in cls.body if isinstance(n, ast.FunctionDef)}
+    if 'rescale' not in fn or 'resample' not in fn: raise Refuse('Plane.rescale / resample not found')
+    steps, rows, px, factor = [], [], None, {}
+    def s(x): return '"' + x + '"'
+    for st in fn['rescale'].body:
+        src = ast.unparse(st)
+        if isinstance(st, ast.Expr) and isinstance(st.value, ast.Constant): continue
+        if isinstance(st, ast.Assign) and src.startswith('plane = '):
+            steps.append('copy:' + ast.unparse(st.value))
+        elif isinstance(st, ast.If) and ast.unparse(st.test) in ('plane.amplitude.ndim > 1', 'plane.opd.ndim > 1'):
+            attr = ast.unparse(st.test).split('.')[1]
+            if len(st.body) != 1 or st.orelse or ast.unparse(st.body[0].targets[0]) != f'plane.{attr}': raise Refuse(f'{attr} block')
+            v = st.body[0].value
+            post = 'one'
+            if isinstance(v, ast.BinOp):        # the interpolated array times/divided by something
+                if not isinstance(v.op, ast.Div): raise Refuse(f'{attr}: post-factor {ast.unparse(v)[:40]}')
+                post = _rx(ast.BinOp(left=ast.Name(id='one'), op=ast.Div(), right=v.right), {'one': 'one', 'scale': 's'})
+                v = v.left
+            arr, kw = _rescale_call(v)
+            if arr != f'plane.{attr}': raise Refuse(f'{attr}: rescales {arr}')
+            rows.append((attr, 'ndim > 1', kw.get('order'), kw.get('mode'), kw.get('unitary'))); factor[attr] = post; steps.append(attr)
+        elif isinstance(st, ast.If) and ast.unparse(st.test) == 'plane._mask.ndim == 2':
+            arr, kw = _rescale_call(st.body[0].value)
+            lc = st.orelse[0].value
+            inner = lc.args[0] if isinstance(lc, ast.Call) else lc
+            if not isinstance(inner, ast.ListComp): raise Refuse('segmented mask branch')
+            arr2, kw2 = _rescale_call(inner.elt)
+            if kw != kw2: raise Refuse('monolithic and segmented masks are rescaled with different options')
+            rows.append(('mask', 'always (each segment)', kw.get('order'), kw.get('mode'), kw.get('unitary'))); steps.append('mask')
+        elif src == 'plane._mask[np.nonzero(plane._mask)] = 1': steps.append('binarise')
+        elif src == 'plane._mask = plane._mask.astype(int)': steps.append('astype(int)')
+        elif src == 'plane._slice = _plane_slice(plane._mask)': steps.append('slice')
+        elif isinstance(st, ast.If) and ast.unparse(st.test) == 'plane.pixelscale is not None':
+            t = st.body[0].value
+            if not isinstance(t, ast.Tuple) or len(t.elts) != 2: raise Refuse('pixelscale update')
+            env = {'plane.pixelscale[0]': 'px0', 'plane.pixelscale[1]': 'px1', 'scale': 's'}
+            px = (_rx(t.elts[0], env), _rx(t.elts[1], env)); steps.append('pixelscale')
+        elif isinstance(st, ast.Return):
+            if ast.unparse(st.value) != 'plane': raise Refuse('rescale must return the copy')
+        else: raise Refuse(f'Plane.rescale: statement not understood: {src[:70]}')
+    if px is None or set(factor) != {'amplitude', 'opd'}: raise Refuse('Plane.rescale: pieces missing')
+    # resample
+    guards, rs = [], None
+    node = [x for x in fn['resample'].body if isinstance(x, ast.If)]
+    if len(node) != 1: raise Refuse('resample guards')
+    n = node[0]
+    while True:
+        exc = n.body[0].exc
+        guards.append((ast.unparse(n.test), ast.unparse(exc.func) if isinstance(exc, ast.Call) else ast.unparse(exc)))
+        if len(n.orelse) == 1 and isinstance(n.orelse[0], ast.If): n = n.orelse[0]
+        else: break
+    ret = [x for x in fn['resample'].body if isinstance(x, ast.Return)][0].value
+    if not (isinstance(ret, ast.Call) and ast.unparse(ret.func) == 'self.rescale'): raise Refuse('resample must call self.rescale')
+    kw = {k.arg: k.value for k in ret.keywords}
+    rs = _rx(kw['scale'] if 'scale' in kw else ret.args[0], {'self.pixelscale[0]': 'px0', 'self.pixelscale[1]': 'px1', 'pixelscale': 'new'})
+    K = '{K : Type} [Add K] [Sub K] [Mul K] [Div K]'
+    out = ['/-- steps of `Plane.rescale` in source order -/\n' + f'def prSteps : List String := [{", ".join(s(x) for x in steps)}]\n',
+           '/-- (attribute, guard, order, mode, unitary) of each `lentil.rescale` call -/\n'
+           f'def prInterp : List (String × String × String × String × String) := [{", ".join("(" + ", ".join(s(str(x)) for x in r) + ")" for r in rows)}]\n',
+           f'/-- factor applied to the interpolated amplitude -/\ndef prAmplitudeFactor {K} (one s : K) : K := {factor["amplitude"]}\n',
+           f'/-- factor applied to the interpolated OPD -/\ndef prOpdFactor {K} (one s : K) : K := {factor["opd"]}\n',
+           f'/-- `plane._pixelscale = (…, …)` -/\ndef prPixelscale {K} (px0 px1 s : K) : K × K := ({px[0]}, {px[1]})\n',
+           '/-- guards of `Plane.resample`, in order: (test, exception) -/\n'
+           f'def prResampleGuards : List (String × String) := [{", ".join("(" + s(a) + ", " + s(b) + ")" for a, b in guards)}]\n',
+           f'/-- scale factor `resample` hands to `rescale` -/\ndef prResampleScale {K} (px0 px1 new : K) : K := {rs}\n']
+    return '\n'.join(out), [f'steps {steps}', f'factor {factor}', f'px {px}', f'resample {rs} guards {guards}']
+
+MODULES.append({'name': 'PlaneRescale', 'src': 'lentil/plane.py', 'generator': plane_generator, 'props': ['C17']})
